@@ -25,7 +25,30 @@ def load(prop):
     return mod
 
 
+def _replay_task(args):
+    _, prop, path = args
+    warnings.filterwarnings('ignore')
+    out = {'replay': path, 'ok': True, 'msg': '', 'known': {}, 'error': None}
+    try:
+        mod = load(prop)
+        findings = Findings(os.path.join(fw.VERIF_DIR, 'known_findings.json'))
+        checks = {c.name: c for c in mod.CHECKS}
+        with open(path) as f:
+            r = json.load(f)
+        if r['check'] not in checks:
+            out['error'] = f'unknown check {r["check"]}'
+            return out
+        ok, msg, rctx = fw.replay_case(prop, checks[r['check']], r['case'], findings)
+        out.update(ok=ok, msg=msg, known=dict(rctx.ev.known))
+    except BaseException as e:  # noqa: BLE001
+        import traceback
+        out['error'] = f'{type(e).__name__}: {e}\n{traceback.format_exc()}'
+    return out
+
+
 def _task(args):
+    if args[0] == 'replay':
+        return _replay_task(args)
     prop, idx, tier, seed, shard, nshards = args
     warnings.filterwarnings('ignore')
     mod = load(prop)
@@ -80,6 +103,7 @@ def main(argv):
     for sub in ('regressions', 'corpus'):
         dd = os.path.join(fw.VERIF_DIR, 'replays', sub)
         saved += [os.path.join(dd, fn) for fn in sorted(os.listdir(dd))] if os.path.isdir(dd) else []
+    replay_tasks = []
     for path in saved:
         fn = os.path.basename(path)
         if not fn.endswith('.json'):
@@ -89,20 +113,7 @@ def main(argv):
         if r['property'] != prop:
             continue
         nreg += 1
-        if r['check'] not in checks:
-            errors.append(f'regression {fn}: unknown check {r["check"]}')
-            continue
-        try:
-            ok, msg, rctx = fw.replay_case(prop, checks[r['check']], r['case'], findings)
-        except Exception as e:  # noqa: BLE001
-            import traceback
-            errors.append(f'regression {fn}: {type(e).__name__}: {e}\n{traceback.format_exc()}')
-            continue
-        for k, v in rctx.ev.known.items():
-            reg_known[k] = reg_known.get(k, 0) + v
-        if not ok:
-            print(f'regression {fn}: {msg}')
-            violations.append((rel(path), msg))
+        replay_tasks.append(('replay', prop, path))
 
     # 2. generated / enumerated / stateful search
     tasks = []
@@ -110,12 +121,24 @@ def main(argv):
         n = c.shards[tier]
         for k in range(n):
             tasks.append((prop, idx, tier, seed, k, n))
-    nproc = min(NPROC, len(tasks)) or 1
-    if nproc == 1:
-        results = [_task(t) for t in tasks]
-    else:
-        with mp.get_context('fork').Pool(nproc, maxtasksperchild=4) as pool:
-            results = pool.map(_task, tasks, chunksize=1)
+    # every task (a saved replay, or one shard of one sub-check) runs in a process of its own, forked from this parent,
+    # which never executes repository code itself: state that the code under test keeps at module or class level cannot
+    # travel from one task to the next (it can still travel between the cases of one task, which is intended)
+    alltasks = replay_tasks + tasks
+    nproc = max(1, min(NPROC, len(alltasks)))
+    with mp.get_context('fork').Pool(nproc, maxtasksperchild=1) as pool:
+        allresults = pool.map(_task, alltasks, chunksize=1)
+    results = allresults[len(replay_tasks):]
+    for rr in allresults[: len(replay_tasks)]:
+        fn = os.path.basename(rr['replay'])
+        if rr['error']:
+            errors.append(f'saved case {fn}: {rr["error"]}')
+            continue
+        for k, v in rr['known'].items():
+            reg_known[k] = reg_known.get(k, 0) + v
+        if not rr['ok']:
+            print(f'regression {fn}: {rr["msg"]}')
+            violations.append((rel(rr['replay']), rr['msg']))
 
     per_check = {}
     founddir = os.environ.get('VERIF_FOUND_DIR') or os.path.join(fw.VERIF_DIR, 'replays', 'found')
